@@ -448,6 +448,21 @@ class Check:
         c["proof_files"] = p["files"]
         c["checker_cmd"] = "cd /verif/coq && make Props/%s.vo  (coqc 8.16.1 kernel, full .vo build)" % self.prop
         self.proof = p
+        if self.tier == "thorough" and p["ok"] and "coqchk" not in c:
+            # independent re-check of the compiled theorems and everything they depend on
+            t = time.time()
+            rc, out = sh(["coqchk", "-silent", "-o", "-Q", COQ, "RC", "RC.Props.%s" % self.prop], timeout=3000)
+            summ = out[out.find("CONTEXT SUMMARY"):] if "CONTEXT SUMMARY" in out else out[-1500:]
+            sect = {}
+            for m in re.finditer(r"\* ([^:\n]+):\s*(.*?)(?=\n\s*\n\* |\Z)", summ, re.S):
+                sect[m.group(1).strip()] = " ".join(m.group(2).split())
+            bad = [k for k, v in sect.items() if k != "Axioms" and not k.startswith("Theory") and v != "<none>"]
+            c["coqchk"] = {"rc": rc, "wall_s": round(time.time() - t, 1), "summary": sect,
+                           "cmd": "coqchk -silent -o -Q /verif/coq RC RC.Props.%s" % self.prop}
+            if rc != 0 or bad:
+                p["ok"] = False
+                p["broken"].append({"file": "Props/%s.vo" % self.prop, "line": 0, "statement": None,
+                                    "error": "coqchk: rc=%d %s %s" % (rc, bad, out[-400:])})
         if not p["ok"]:
             what = []
             for b in p["broken"]:
